@@ -113,7 +113,11 @@ func run(raw json.RawMessage) (common.Case, error) {
 	}
 	var writes []string
 	onlyCU, anyFail := true, false
-	for _, w := range in.Writes {
+	released := make([]ru.Write, 0, len(res.Order))
+	for _, i := range res.Order {
+		released = append(released, in.Writes[i])
+	}
+	for _, w := range released {
 		writes = append(writes, common.Tuple(common.Nat(w.Node), common.Nat(w.Rep), ru.KindCoq(w.Kind)))
 		if w.Kind != "ok" {
 			anyFail = true
@@ -130,22 +134,42 @@ func run(raw json.RawMessage) (common.Case, error) {
 	}
 	c.Nontrivial = anyFail
 
-	// Go-side predicate (search aid).
-	if in.Replica <= in.RF {
+	// Go-side predicate (search aid): the status as a function of WHAT the
+	// replicas answered, not of the order (Model.C23.spec_status): 200 iff every
+	// series reached quorum; else 409 iff every series that missed quorum got
+	// >= failureThreshold conflicts; else 503.
+	if in.Replica <= in.RF && len(in.Place) > 0 {
 		nrep, q := quorum(in.RF, in.Replica)
 		ft := nrep - q + 1
-		permanent := false
-		for s, p := range in.Place {
-			conf := 0
+		allQuorum, allDetermined, permanent := true, true, false
+		for _, p := range in.Place {
+			conf, ok := 0, 0
 			for _, w := range in.Writes {
-				if (w.Kind == "conflict" || w.Kind == "conflict_local") && p[w.Rep] == w.Node {
+				if p[w.Rep] != w.Node {
+					continue
+				}
+				switch w.Kind {
+				case "conflict", "conflict_local":
 					conf++
+				case "ok":
+					ok++
 				}
 			}
-			_ = s
 			if conf >= ft {
 				permanent = true
 			}
+			if ok < q {
+				allQuorum = false
+				if conf < ft {
+					allDetermined = false
+				}
+			}
+		}
+		want := 503
+		if allQuorum {
+			want = 200
+		} else if allDetermined {
+			want = 409
 		}
 		switch {
 		case res.Status == 500 && onlyCU:
@@ -154,9 +178,12 @@ func run(raw json.RawMessage) (common.Case, error) {
 		case res.Status == 409 && !permanent:
 			c.GoPred = "HTTP 409 although no series has enough conflicts to make quorum impossible"
 			c.Sig = "409-but-retryable"
-		case res.Status != 200 && !permanent && res.Status != 503 && onlyCU:
-			c.GoPred = fmt.Sprintf("HTTP %d for a failure that a retry can fix (want 503)", res.Status)
-			c.Sig = "retryable-not-503"
+		case onlyCU && res.Status != want && want == 409:
+			c.GoPred = fmt.Sprintf("HTTP %d although every series that missed quorum is blocked by conflicts alone (want 409, in every arrival order)", res.Status)
+			c.Sig = "permanent-not-409"
+		case onlyCU && res.Status != want:
+			c.GoPred = fmt.Sprintf("HTTP %d, want %d (200 iff quorum everywhere, 409 iff all failed series are blocked by conflicts, else 503)", res.Status, want)
+			c.Sig = fmt.Sprintf("status-%d-want-%d", res.Status, want)
 		}
 	}
 	return c, nil
@@ -211,6 +238,55 @@ func gen(r *rand.Rand, tier string, n int) []any {
 			out = append(out, in)
 		}
 	}
+	// 1b. ties at even replication factors: exactly failureThreshold conflicts
+	//     + failureThreshold unavailable, in EVERY arrival order, with each
+	//     flavour of "unavailable"; plus the same tie as one series of a
+	//     two-series request whose other series succeeds everywhere.
+	for _, rf := range []int{4, 6} {
+		ft := rf / 2
+		flavours := []string{"unavail", "unavail_sent", "notready"}
+		if tier != "thorough" && rf == 6 {
+			flavours = []string{"unavail"}
+		}
+		for _, fl := range flavours {
+			for mask := 0; mask < 1<<rf; mask++ { // positions of the conflicts in the arrival order
+				bits := 0
+				for i := 0; i < rf; i++ {
+					bits += (mask >> i) & 1
+				}
+				if bits != ft {
+					continue
+				}
+				in := ru.FanoutInput{RF: rf}
+				row := make([]int, rf)
+				for i := range row {
+					row[i] = i
+				}
+				in.Place = [][]int{row}
+				perm := r.Perm(rf)
+				for i := 0; i < rf; i++ {
+					k := fl
+					if (mask>>i)&1 == 1 {
+						k = common.Pick(r, "conflict", "conflict", "conflict_local")
+					}
+					in.Writes = append(in.Writes, ru.Write{Node: perm[i], Rep: perm[i], Kind: k})
+				}
+				out = append(out, in)
+				if rf == 4 || tier == "thorough" {
+					in2 := ru.FanoutInput{RF: rf, Place: [][]int{row, make([]int, rf)}}
+					for i := range row {
+						in2.Place[1][i] = rf + i // second series on other nodes, all ok
+					}
+					in2.Writes = append([]ru.Write(nil), in.Writes...)
+					for i := 0; i < rf; i++ {
+						in2.Writes = append(in2.Writes, ru.Write{Node: rf + i, Rep: i, Kind: "ok"})
+					}
+					r.Shuffle(len(in2.Writes), func(a, b int) { in2.Writes[a], in2.Writes[b] = in2.Writes[b], in2.Writes[a] })
+					out = append(out, in2)
+				}
+			}
+		}
+	}
 	// 2. random multi-series requests over several nodes, all outcome kinds.
 	maxRF, maxSeries := 6, 3
 	if tier == "thorough" {
@@ -258,6 +334,23 @@ func gen(r *rand.Rand, tier string, n int) []any {
 		}
 		for j := range ws {
 			ws[j].Kind = palette[r.Intn(len(palette))]
+		}
+		if r.Intn(4) == 0 && in.Replica == 0 && rf >= 2 {
+			// force series 0 to exactly failureThreshold conflicts, the rest unavailable
+			_, q := quorum(rf, 0)
+			ft := rf - q + 1
+			k := 0
+			for j := range ws {
+				if in.Place[0][ws[j].Rep] == ws[j].Node {
+					if k < ft {
+						ws[j].Kind = "conflict"
+					} else {
+						ws[j].Kind = common.Pick(r, "unavail", "unavail_sent", "notready", "unavail")
+					}
+					k++
+				}
+			}
+			r.Shuffle(len(ws), func(a, b int) { ws[a], ws[b] = ws[b], ws[a] })
 		}
 		in.Writes = ws
 		out = append(out, in)
